@@ -7,7 +7,7 @@ def tasks(tier):
 TRUSTED_BASE = TRUSTED_CORE
 ASSUMPTIONS = SCHED_ASSUMPTIONS
 NOT_COVERED = ["the promise as a whole-run statement ('not stepped in (t, m] for an outside reason') needs a history invariant PM over all later schedule_step calls of other simulators; it is NOT built. Decided: the function computing m (exact characterisation: the minimum over triggering ancestors of their next / current step plus distance, capped by until), and the closure it reads by a bounded stand-in", 'triggering_ancestors (cache_triggering_ancestors) by a bounded stand-in only']
-LEVEL_TEXT = 'Function-level contract of get_max_advance (exact characterisation incl. in-flight ancestors, m <= until, m = until without trigger inputs, frame) for all states satisfying the invariant; bounded stand-in for the ancestor closure. The whole-run promise invariant is not built (see not_covered). End to end (BOUNDED, not a proof): in every run of the differential harness (15 scenarios x configurations x interleavings) the max_advance handed to each step is checked against the steps that follow.'
+LEVEL_TEXT = 'Function-level contract of get_max_advance (exact characterisation incl. in-flight ancestors, m <= until, m = until without trigger inputs, frame) for all states satisfying the invariant; bounded stand-in for the ancestor closure. The whole-run promise invariant is not built (see not_covered). End to end (BOUNDED, not a proof): in every run of the differential harness (all scenarios x configurations x interleavings; bound in coverage.bounded[].bound) the max_advance handed to each step is checked against the steps that follow.'
 DESIGN_REF = "DESIGN.md section 8 (C07)"
 LEVEL_NOTE = "Partly decided. Trusted: pyvc encoder, time/delay algebra axioms with C08 provenance, static table typing (static_ok), z3/cvc5. Fixed through this check: F3' (6862ef0)."
 TECHNIQUE = 'contract-based deductive verification (get_max_advance) + bounded stand-in for the ancestor closure'
